@@ -410,4 +410,215 @@ theorem xl_sendFgBg_effect {rw} {rc : RenderCfg} (C : ColCaps rc) (hfit : FitOk 
       by_cases vB : Color.valid bg = true <;>
       simp [withPen, colSel, dF, dB, hb'.2, hb', cf.2, cb.2, cf, cb, vF, vB, h1, h2]
 
+
+/-! ## underline -/
+
+/-- what the class says about the underline strings and the cursor strings -/
+structure UCaps (rc : RenderCfg) : Prop where
+  underline : rc.ti.underline = sgr1 4
+  du : rc.d.doubleUnder = [] ∨ rc.d.doubleUnder = ulStyleStd 2
+  cu : rc.d.curlyUnder = [] ∨ rc.d.curlyUnder = ulStyleStd 3
+  dou : rc.d.dottedUnder = [] ∨ rc.d.dottedUnder = ulStyleStd 4
+  dau : rc.d.dashedUnder = [] ∨ rc.d.dashedUnder = ulStyleStd 5
+  uc : rc.d.underColor = [] ∨ rc.d.underColor = ulIdx
+  urgb : rc.d.underRGB = [] ∨ rc.d.underRGB = ulRGB
+  ufg : rc.d.underFg = [] ∨ rc.d.underFg = ulResetStd
+  coh : rc.d.underRGB.isEmpty = rc.d.underColor.isEmpty
+  cstyles : rc.d.cursorStyles = none ∨ rc.d.cursorStyles = some cursorStylesStd
+  showC : rc.ti.showCursor ∈ showForms
+  clear : rc.ti.clear ∈ clearForms
+
+theorem xl_ucaps {rc : RenderCfg} (hx : XtermLike rc.ti = true) (hd : rc.d = derive rc.ti) : UCaps rc := by
+  have h1 := xl_tiOk hx
+  have h2 : dOk rc.d = true := by rw [hd]; simp only [XtermLike, Bool.and_eq_true] at hx; exact hx.2
+  simp only [tiOk, Bool.and_eq_true, beq_iff_eq, and_assoc] at h1
+  obtain ⟨_, _, a3, a4, _, a6, _⟩ := h1
+  simp only [dOk, Bool.and_eq_true, Bool.or_eq_true, beq_iff_eq, and_assoc] at h2
+  obtain ⟨_, _, b3, b4, b5, b6, b7, b8, b9, b10, b11⟩ := h2
+  exact ⟨a6, opt_of b3, opt_of b4, opt_of b5, opt_of b6, opt_of b7, opt_of b8, opt_of b9, b11, b10,
+    by simpa using a4, by simpa using a3⟩
+
+theorem stylePiece {rw} {rc : RenderCfg} {t : Term} (g : Good rw t) (k : Nat) (hk : k ≤ 5) (s : Bytes)
+    (hs : s = [] ∨ s = ulStyleStd k) :
+    t.feed (tp rc s) = withPen t { t.pen with ul := if (!s.isEmpty) = true then k else t.pen.ul } := by
+  rcases hs with rfl | rfl
+  · simp [withPen]
+  · have : ((!(ulStyleStd k).isEmpty) = true) := by simp [ulStyleStd]
+    rw [if_pos this, tp_clean rc _ (by
+      intro b hb; simp only [ulStyleStd, List.mem_cons, List.not_mem_nil, or_false] at hb
+      rcases hb with h | h | h | h | h | h <;> omega), ulStyle_effect g k hk]
+
+/-- **the underline part of the style block**: underline colour (indexed, direct, reset), `smul`, underline style -/
+theorem xl_underline_effect {rw} {rc : RenderCfg} (U : UCaps rc) {t : Term} (g : Good rw t)
+    (h1 : t.pen.ul = 0) (h2 : t.pen.ulColor = .default) (us uc : Nat) :
+    t.feed (Render.underline rc us uc) =
+      withPen t { t.pen with ul := ulStyleOf rc us, ulColor := if us = 0 then .default else ulSel rc uc } := by
+  unfold Render.underline
+  by_cases h0 : us = 0
+  · simp only [h0, if_true, ulStyleOf]
+    have : ({ t.pen with ul := 0, ulColor := .default } : Pen) = t.pen := by
+      cases hp : t.pen; rw [hp] at h1 h2; simp_all
+    rw [this]; rfl
+  · simp only [h0, if_false]
+    rw [← feed_append, ← feed_append]
+    -- colour
+    have eC : t.feed (if (!rc.d.underColor.isEmpty) = true ∨ (!rc.d.underRGB.isEmpty) = true then
+          if uc = colorReset then tp rc rc.d.underFg
+          else if Color.isRGB uc = true then
+            if (!rc.d.underRGB.isEmpty) = true then tp rc (parm rc.d.underRGB (ints (Render.rgbOf uc)))
+            else tp rc (parm rc.d.underColor (ints [((Render.fitColor rc uc % 256 : Nat) : Int)]))
+          else if Color.valid uc = true then tp rc (parm rc.d.underColor (ints [((uc % 256 : Nat) : Int)]))
+          else []
+        else []) = withPen t { t.pen with ulColor := ulSel rc uc } := by
+      have keep : ∀ c, c = ColorSel.default → t = withPen t { t.pen with ulColor := c } := by
+        intro c hc; subst hc
+        have : ({ t.pen with ulColor := .default } : Pen) = t.pen := by cases hp : t.pen; rw [hp] at h2; simp_all
+        rw [this]; rfl
+      rcases U.uc with e | e
+      · have e' : rc.d.underRGB.isEmpty = true := by rw [U.coh, e]; rfl
+        have e'' : rc.d.underColor.isEmpty = true := by rw [e]; rfl
+        rw [if_neg (by simp [e', e''])]
+        exact keep _ (by simp [ulSel, e''])
+      · have ne : rc.d.underColor.isEmpty = false := by rw [e]; rfl
+        have ne' : rc.d.underRGB.isEmpty = false := by rw [U.coh, ne]
+        have eR : rc.d.underRGB = ulRGB := by
+          rcases U.urgb with h | h
+          · simp [h] at ne'
+          · exact h
+        rw [if_pos (by simp [ne])]
+        by_cases hr : uc = colorReset
+        · rw [if_pos hr]
+          have : ulSel rc uc = .default := by simp [ulSel, hr]
+          rw [this]
+          rcases U.ufg with h | h
+          · rw [h, tp_nil]; exact keep _ rfl
+          · rw [h, tp_clean rc _ (by decide), ulReset_effect g]
+        · rw [if_neg hr]
+          by_cases hrgb : Color.isRGB uc = true
+          · obtain ⟨r, gg, b, hr', hg, hb, e1, e2⟩ := rgb_forms uc hrgb
+            rw [if_pos hrgb, if_pos (by simp [ne']), eR, e1]
+            show t.feed (tp rc (parm ulRGB (ints [(r : Int), (gg : Int), (b : Int)]))) = _
+            have cl : ∀ x ∈ csiSeq (ulRGBBody r gg b) 0x6d, x ≠ 36 := by
+              apply csiSeq_clean _ _ _ (by omega)
+              intro x hx
+              simp only [ulRGBBody, List.mem_append, List.mem_cons] at hx
+              rcases hx with h | h | h | h | h | h | h | h | h | h <;>
+                first | omega | (have := dec_no_dollar _ x h; omega)
+            have : ulSel rc uc = .rgb r gg b := by simp [ulSel, ne, hr, hrgb, e2]
+            rw [parm_ulRGB, tp_clean rc _ cl, ulRGB_effect g r gg b hr' hg hb, this]
+          · rw [if_neg hrgb]
+            by_cases hv : Color.valid uc = true
+            · rw [if_pos hv, e]
+              have cl : ∀ x ∈ csiSeq (ulIdxBody (uc % 256)) 0x6d, x ≠ 36 := by
+                apply csiSeq_clean _ _ _ (by omega)
+                intro x hx
+                simp only [ulIdxBody, List.mem_append, List.mem_cons] at hx
+                rcases hx with h | h | h | h | h <;> first | omega | (have := dec_no_dollar _ x h; omega)
+              have : ulSel rc uc = .idx (uc % 256) := by simp [ulSel, ne, hr, hrgb, hv]
+              rw [parm_ulIdx, tp_clean rc _ cl, ulIdx_effect g _ (by omega), this]
+            · rw [if_neg hv]
+              exact keep _ (by simp [ulSel, ne, hr, hrgb, hv])
+    rw [eC, U.underline, tp_clean rc _ (by decide), ul_effect (good_withPen g _)]
+    have g2 := good_withPen (good_withPen g { t.pen with ulColor := ulSel rc uc })
+      { (withPen t { t.pen with ulColor := ulSel rc uc }).pen with ul := 1 }
+    -- style
+    by_cases h2' : us = 2
+    · rw [if_pos h2', stylePiece g2 2 (by omega) _ U.du]
+      cases hE : rc.d.doubleUnder.isEmpty <;> simp [withPen, ulStyleOf, h2', hE]
+    · rw [if_neg h2']
+      by_cases h3 : us = 3
+      · rw [if_pos h3, stylePiece g2 3 (by omega) _ U.cu]
+        cases hE : rc.d.curlyUnder.isEmpty <;> simp [withPen, ulStyleOf, h3, hE]
+      · rw [if_neg h3]
+        by_cases h4 : us = 4
+        · rw [if_pos h4, stylePiece g2 4 (by omega) _ U.dou]
+          cases hE : rc.d.dottedUnder.isEmpty <;> simp [withPen, ulStyleOf, h4, hE]
+        · rw [if_neg h4]
+          by_cases h5 : us = 5
+          · rw [if_pos h5, stylePiece g2 5 (by omega) _ U.dau]
+            cases hE : rc.d.dashedUnder.isEmpty <;> simp [withPen, ulStyleOf, h5, hE]
+          · rw [if_neg h5]
+            simp [withPen, ulStyleOf, h0, h2', h3, h4, h5]
+
+
+/-! ## the whole style block -/
+
+theorem opt_piece' {rw} {rc : RenderCfg} {t : Term} (g : Good rw t) (b : Bool) (s std : Bytes) (ho : s = [] ∨ s = std)
+    (hstd : ∀ x ∈ std, x ≠ 36) (f : Pen → Pen) (heff : ∀ {t : Term}, Good rw t → t.feed std = withPen t (f t.pen)) :
+    ∃ p', t.feed (if b then tp rc s else []) = withPen t p' ∧ p' = (if (b && !s.isEmpty) = true then f t.pen else t.pen) :=
+  ⟨_, opt_piece g b s std ho hstd f heff, rfl⟩
+
+/-- **`CapsFx.pen` for the class**: the whole `if style != t.curstyle` block of drawCell (tscreen.go:841-910) — `sgr0`,
+sendFgBg, bold, underline colour / `smul` / underline style, reverse, blink, dim, italic, strike-through, hyperlink off —
+for EVERY style without hyperlink, on every `XtermLike` terminal: the emulator's pen becomes exactly `penOf rc s`, pen and
+hyperlink state are known, the parser is back in the ground state and nothing else has changed. -/
+theorem xl_setPen_effect {rw} {rc : RenderCfg} (hx : XtermLike rc.ti = true) (hd : rc.d = derive rc.ti) (hfit : FitOk rc)
+    {t : Term} (g : Good rw t) (s : Style) (hurl : s.url = "") :
+    t.feed (Render.render rc (.setPen s)) = { t with pen := penOf rc s, penKnown := true, linkKnown := true } := by
+  have X := xl_facts hx hd
+  have C := xl_colcaps hx
+  have U := xl_ucaps hx hd
+  have hne : (!rc.d.enterUrl.isEmpty) = true := by rw [X.enterUrl]; decide
+  have g0 := good_reset g
+  obtain ⟨hs1, hs2⟩ := xl_sendFgBg_effect C hfit g0 rfl rfl s.fg s.bg s.attrs
+  obtain ⟨cb, hcb⟩ : ∃ cb, Render.sendFgBg rc s.fg s.bg s.attrs = (cb, s.attrs) := ⟨_, Prod.ext rfl hs2⟩
+  rw [hcb] at hs1
+  have e : Render.render rc (.setPen s) =
+      tp rc rc.ti.attrOff ++ cb ++ (if bit s.attrs Render.attrBold then tp rc rc.ti.bold else []) ++
+      Render.underline rc s.ulStyle s.ulColor ++
+      (if bit s.attrs Render.attrReverse then tp rc rc.ti.reverse else []) ++
+      (if bit s.attrs Render.attrBlink then tp rc rc.ti.blink else []) ++
+      (if bit s.attrs Render.attrDim then tp rc rc.ti.dim else []) ++
+      (if bit s.attrs Render.attrItalic then tp rc rc.ti.italic else []) ++
+      (if bit s.attrs Render.attrStrike then tp rc rc.ti.strikeThrough else []) ++ urlClose := by
+    simp only [Render.render, Render.setPen, hcb, hne, hurl, X.exitUrl,
+      bit, if_true, ne_eq, not_true_eq_false, if_false, tp_clean rc urlClose (by decide), decide_eq_true_eq]
+  rw [e]
+  simp only [← feed_append]
+  rw [xl_attrOff_effect hx g, hs1]
+  generalize hp0 : ({ (reset t).pen with fg := colSel rc s.fg, bg := colSel rc s.bg } : Pen) = p0
+  have g1 := good_withPen g0 p0
+  obtain ⟨p1, e1, hp1⟩ := opt_piece' (rc := rc) g1 (bit s.attrs Render.attrBold) rc.ti.bold (sgr1 1) (Or.inr X.bold) (by decide)
+    (fun p => { p with bold := true }) bold_effect
+  rw [e1]
+  have g2 := good_withPen g1 p1
+  have u1 : p1.ul = 0 := by
+    rw [hp1]; show (if _ then ({ p0 with bold := true } : Pen) else p0).ul = 0
+    rw [← hp0]; split <;> rfl
+  have u2 : p1.ulColor = .default := by
+    rw [hp1]; show (if _ then ({ p0 with bold := true } : Pen) else p0).ulColor = .default
+    rw [← hp0]; split <;> rfl
+  obtain ⟨p2, e2, hp2⟩ : ∃ p2, (withPen (withPen (reset t) p0) p1).feed (Render.underline rc s.ulStyle s.ulColor) =
+      withPen (withPen (withPen (reset t) p0) p1) p2 ∧ p2 =
+      { p1 with ul := ulStyleOf rc s.ulStyle, ulColor := if s.ulStyle = 0 then .default else ulSel rc s.ulColor } :=
+    ⟨_, xl_underline_effect U g2 u1 u2 _ _, rfl⟩
+  rw [e2]
+  have g3 := good_withPen g2 p2
+  obtain ⟨p3, e3, hp3⟩ := opt_piece' (rc := rc) g3 (bit s.attrs Render.attrReverse) rc.ti.reverse (sgr1 7) (Or.inr X.reverse)
+    (by decide) (fun p => { p with reverse := true }) reverse_effect
+  rw [e3]
+  have g4 := good_withPen g3 p3
+  obtain ⟨p4, e4, hp4⟩ := opt_piece' (rc := rc) g4 (bit s.attrs Render.attrBlink) rc.ti.blink (sgr1 5) X.blink
+    (by decide) (fun p => { p with blink := true }) blink_effect
+  rw [e4]
+  have g5 := good_withPen g4 p4
+  obtain ⟨p5, e5, hp5⟩ := opt_piece' (rc := rc) g5 (bit s.attrs Render.attrDim) rc.ti.dim (sgr1 2) X.dim
+    (by decide) (fun p => { p with dim := true }) dim_effect
+  rw [e5]
+  have g6 := good_withPen g5 p5
+  obtain ⟨p6, e6, hp6⟩ := opt_piece' (rc := rc) g6 (bit s.attrs Render.attrItalic) rc.ti.italic (sgr1 3) X.italic
+    (by decide) (fun p => { p with italic := true }) italic_effect
+  rw [e6]
+  have g7 := good_withPen g6 p6
+  obtain ⟨p7, e7, hp7⟩ := opt_piece' (rc := rc) g7 (bit s.attrs Render.attrStrike) rc.ti.strikeThrough (sgr1 9) X.strike
+    (by decide) (fun p => { p with strike := true }) strike_effect
+  rw [e7]
+  have g8 := good_withPen g7 p7
+  rw [urlClose_effect g8]
+  subst hp7; subst hp6; subst hp5; subst hp4; subst hp3; subst hp2; subst hp1; subst hp0
+  have hb1 : rc.ti.bold.isEmpty = false := by rw [X.bold]; decide
+  have hb7 : rc.ti.reverse.isEmpty = false := by rw [X.reverse]; decide
+  simp only [ite_bold, ite_reverse, ite_blink, ite_dim, ite_italic, ite_strike]
+  simp [withPen, reset, penOf, hurl, hb1, hb7]
+
 end Tcell.LayerB
